@@ -35,7 +35,7 @@ impl Check for C01 {
         ]
     }
     fn cases(tier: Tier) -> u32 {
-        tier.pick(480, 8000)
+        tier.pick(3200, 30000)
     }
     fn strategy(tier: Tier) -> BoxedStrategy<History> {
         history_strategy(HistParams {
